@@ -2666,7 +2666,11 @@ class BaseInterpreter(Generic[TContext, TEvent]):
             Optional[StateNode]: The state node that is the LCCA, or None if the
             root is the domain.
         """
-        parent = transition.source.parent or self.machine
+        # 🌳 The root has no parent, so its domain is `None` ("the whole
+        #    machine"). Falling back to the root node itself made a transition
+        #    that targets the root exit every descendant and re-enter nothing,
+        #    leaving the bare root as the entire configuration.
+        parent = transition.source.parent
 
         # For any self-transition, the domain is the parent. This forces an
         # exit/re-entry cycle for the source state.
@@ -2693,7 +2697,7 @@ class BaseInterpreter(Generic[TContext, TEvent]):
         # restored, permanently killing them. The parent is the correct domain:
         # it exits and re-enters exactly the target subtree.
         if target_state in source_ancestors:
-            return target_state.parent or self.machine
+            return target_state.parent
 
         if not common_ancestors:
             # Fallback to parent (or machine root) if no commonality is found.
